@@ -24,6 +24,11 @@ var solvers = []solverSpec{
 	{"z3-new-intblast", func(f string, t int) []string {
 		return []string{"z3-new", fmt.Sprintf("-T:%d", t), "smt.bv.solver=2", f}
 	}},
+	// z3 5.1 with deeper E-matching and without model-based instantiation: goals that
+	// need chains of instantiations (set-like specifications with exists/forall)
+	{"z3-new-qi", func(f string, t int) []string {
+		return []string{"z3-new", fmt.Sprintf("-T:%d", t), "smt.mbqi=false", "smt.qi.eager_threshold=50", f}
+	}},
 	{"z3", func(f string, t int) []string { return []string{"z3", fmt.Sprintf("-T:%d", t), f} }},
 	{"cvc5", func(f string, t int) []string {
 		return []string{"cvc5", fmt.Sprintf("--tlimit=%d", t*1000), "--produce-models", f}
@@ -213,8 +218,8 @@ func solveOne(i int, o *Obligation, cfg solveCfg) {
 		if cfg.tier == "thorough" && !o.ExpectSat {
 			// second opinion from a different solver binary
 			for _, sp := range solvers {
-				if sp.name == r.solver {
-					continue
+				if sp.name == r.solver || strings.HasPrefix(sp.name, "z3-new") && strings.HasPrefix(r.solver, "z3-new") {
+					continue // same binary
 				}
 				r2 := runSolver(context.Background(), sp, file, cfg.fullT)
 				o.Queries = append(o.Queries, fmt.Sprintf("%s:%s:%.2fs", r2.solver, r2.answer, r2.secs))
